@@ -29,7 +29,10 @@ def gen_metavar(rng, k, ident=None):
         return T.mv(i)
 
     def sub(pool):
-        return tuple(sorted(set(x for x in pool if rng.random() < 0.4)))
+        l = sorted(set(x for x in pool if rng.random() < 0.4))
+        if len(l) >= 2 and rng.random() < 0.35:
+            rng.shuffle(l)          # constraint lists are sequences (stance 8): not always ascending
+        return tuple(l)
     ef, sf = sub(k.evars), sub(k.svars)
     pos, ng = sub(k.svars), sub(k.svars)
     holes = ()
